@@ -1165,11 +1165,40 @@ pub fn main(args: &crate::Args) {
     if real != "none" {
         crate::c17_real::run_real(args, &cfg, &mut sink, &real);
     }
+    // every extension degree the FRI backend offers: table-list consistency + real chains (c17_deg.rs)
+    let deg_tier = args.str("degrees", &real);
+    let mut deg = crate::c17_deg::DegOut::new();
+    let deg_secs = crate::c17_deg::run(&deg_tier, &mut deg);
+    // replays of the `chain` leg: corpus / --replay files with family "chain"
+    if let Some(dir) = args.opt("corpus") {
+        let mut files: Vec<_> = std::fs::read_dir(&dir).map(|d| d.filter_map(|e| e.ok()).map(|e| e.path()).collect()).unwrap_or_default();
+        files.sort();
+        for f in files {
+            let Ok(txt) = std::fs::read_to_string(&f) else { continue };
+            let Ok(v) = serde_json::from_str::<Value>(&txt) else { continue };
+            let v = if v.get("replay").is_some() { v["replay"].clone() } else { v };
+            if v["family"].as_str() == Some("chain") {
+                let before = deg.violations.len();
+                crate::c17_deg::replay_chain(&v, &mut deg);
+                if deg.violations.len() > before {
+                    sink.reproduced.push(f.file_name().unwrap().to_string_lossy().to_string());
+                }
+            }
+        }
+    }
+    sink.cases.extend(deg.cases.drain(..));
+    sink.impl_.extend(deg.impl_.drain(..));
+    sink.violations.extend(deg.violations.drain(..));
+    sink.evaluations += deg.evaluations;
+    for (k, v) in &deg.hist {
+        *sink.hist.entry(k.clone()).or_insert(0) += v;
+    }
     let t_all = t0.elapsed().as_secs_f64();
     std::fs::write(format!("{out}/c17.cases"), sink.cases.join("\n") + "\n").unwrap();
     std::fs::write(format!("{out}/c17.impl"), sink.impl_.join("\n") + "\n").unwrap();
     let rep = json!({"evaluations": sink.evaluations, "distinct": sink.distinct.len(), "hist": sink.hist,
         "samples": sink.samples, "violations": sink.violations, "corpus_witnesses_reproduced": sink.reproduced,
-        "seconds": {"stub": t_stub, "all": t_all}});
+        "seconds": {"stub": t_stub, "all": t_all, "degrees": deg_secs},
+        "degrees": {"tier": deg_tier, "configurations": crate::c17_deg::CONFIGS, "records": deg.records}});
     std::fs::write(format!("{out}/c17.report.json"), serde_json::to_string_pretty(&rep).unwrap()).unwrap();
 }
